@@ -2,3 +2,4 @@ import CmGen.NamedColors
 import CmGen.Templates
 import CmGen.StateSig
 import CmGen.Leaves
+import CmGen.Optimiser
